@@ -101,9 +101,11 @@ def run_pairs(case, rnd, E):
                 V.append({"kind": "a + b != b + a", "a": da, "b": db})
             if ha and hb:
                 C["sum_law_checked"] += 1
-                s1, s2 = observe.vrepr(r1.sum()), observe.vrepr(a.sum() + b.sum())
-                if not observe.close(s1, s2, rtol=1e-9):
-                    V.append({"kind": "sum(a+b) != sum(a) + sum(b)", "a": da, "b": db, "lhs": str(s1), "rhs": str(s2)})
+                lhs, el = attempt(lambda: observe.vrepr(r1.sum())); rhs, er = attempt(lambda: observe.vrepr(a.sum() + b.sum()))
+                if el is not None or er is not None:
+                    V.append({"kind": "a + b succeeded but sum(a+b) / sum(a)+sum(b) cannot be evaluated", "a": da, "b": db, "error": repr(el or er)[:160]})
+                elif not observe.close(lhs, rhs, rtol=1e-9):
+                    V.append({"kind": "sum(a+b) != sum(a) + sum(b)", "a": da, "b": db, "lhs": str(lhs), "rhs": str(rhs)})
         elif (e1 is None) != (e2 is None):
             V.append({"kind": "a + b and b + a do not both succeed / both raise", "a": da, "b": db, "e1": repr(e1)[:80], "e2": repr(e2)[:80]})
         r1, e1 = attempt(lambda: a * b); r2, e2 = attempt(lambda: b * a)
